@@ -181,7 +181,11 @@ impl CsrSegment {
     }
 }
 
-const META_MAGIC: [u8; 8] = *b"NDBCSRv2";
+pub(crate) const META_MAGIC: [u8; 8] = *b"NDBCSRv2";
+/// Size of the fixed part of a segment meta page (see `encode_meta`); the page-id lists follow.
+pub(crate) const META_HEADER_SIZE: usize = 80;
+/// Offset of the four `u32` page counts (offsets, edges, in_offsets, in_edges).
+pub(crate) const META_PAGE_COUNTS_OFFSET: usize = 64;
 
 #[allow(clippy::too_many_arguments)]
 fn encode_meta(
